@@ -242,6 +242,23 @@ class CallSite:
         return "<call bb%d %s @%s>" % (self.bb, self.callee, self.line)
 
 
+class VirtualCallSite(CallSite):
+    """A call that sits inside a *new* helper function (one not in known_functions.txt, e.g. extracted by a refactoring),
+    presented as if it were made at the helper's call site in the caller: `bb` is the caller's block, argument operands are
+    pre-computed terms of the helper's arguments with the caller's actuals substituted."""
+    __slots__ = ("via", "inner")
+
+    def __init__(self, outer, inner, arg_terms, call_term):
+        self.inner = inner
+        self.body = outer.body
+        self.bb = outer.bb
+        self.term = {"k": "call", "func": inner.func, "args": [{"k": "vterm", "t": t} for t in arg_terms], "dest": outer.dest, "vterm": call_term, "line": outer.term.get("line"), "target": outer.term.get("target")}
+        self.func = inner.func
+        self.args = self.term["args"]
+        self.dest = outer.dest
+        self.via = outer
+
+
 class Body:
     def __init__(self, raw, crate, facts):
         self.raw = raw
@@ -383,6 +400,32 @@ class Body:
         if self._calls is None:
             self._calls = [CallSite(self, i, b["term"]) for i, b in enumerate(self.blocks) if b["term"]["k"] == "call" and not b["cleanup"]]
         return self._calls
+
+    def calls_deep(self, depth=0):
+        """calls() plus the calls made inside new helper functions (see VirtualCallSite); known functions are not entered"""
+        if getattr(self, "_calls_deep", None) is not None and depth == 0:
+            return self._calls_deep
+        known = known_functions()
+        out = []
+        tm = None
+        for cs in self.calls():
+            out.append(cs)
+            k = cs.callee
+            if not known or k is None or k in known or k not in self.facts.bodies or depth > 1:
+                continue
+            if inline_value(self.facts, k) is None and not _helper_shape_ok(self.facts, k):
+                continue
+            hb = self.facts.bodies[k]
+            tm = tm or Terms(self)
+            htm = Terms(hb)
+            actuals = tuple(tm.operand(a, cs.bb) for a in cs.args)
+            for inner in hb.calls_deep(depth + 1):
+                at = [substitute_args(htm.operand(a, inner.bb), actuals) for a in inner.args] if not isinstance(inner, VirtualCallSite) else [substitute_args(a["t"], actuals) for a in inner.args]
+                ct = substitute_args(htm.call_term(inner.term, inner.bb), actuals)
+                out.append(VirtualCallSite(cs, inner, at, ct))
+        if depth == 0:
+            self._calls_deep = out
+        return out
 
     def calls_to(self, *names, **kw):
         out = []
@@ -618,6 +661,82 @@ def callee_key(func):
 _POINTER_ADTS = {"std::boxed::Box", "std::ptr::Unique", "std::ptr::NonNull", "std::ptr::unique::Unique", "std::ptr::non_null::NonNull"}
 
 
+_KNOWN_FNS = None
+_INLINE_CACHE = {}
+
+
+def known_functions():
+    global _KNOWN_FNS
+    if _KNOWN_FNS is None:
+        _KNOWN_FNS = set()
+        try:
+            with open(os.path.join(os.path.dirname(os.path.abspath(__file__)), "known_functions.txt")) as fh:
+                for line in fh:
+                    line = line.rstrip("\n")
+                    if line and not line.startswith("#"):
+                        _KNOWN_FNS.add(line)
+        except OSError:
+            pass
+    return _KNOWN_FNS
+
+
+def inline_value(facts, key, depth=0):
+    """Value of a *new* small helper function (one that did not exist when the rules were written, e.g. extracted by a
+    refactoring): its return term over its own ('arg', i), with the convention of this library that the Ok/Some payload of x is
+    reported as x — error alternatives are dropped, Ok/Some payloads unwrapped.  None when the function is not inlinable
+    (known function, trait method, has loops or `&mut` parameters, too large, recursive)."""
+    ck = (id(facts), key)
+    if ck in _INLINE_CACHE:
+        return _INLINE_CACHE[ck]
+    _INLINE_CACHE[ck] = None  # recursion guard
+    b = facts.bodies.get(key)
+    known = known_functions()
+    if b is None or not known or key in known or depth > 2:
+        return None
+    r = b.raw
+    if r.get("kind") not in ("fn", "assocfn") or r.get("impl_trait") or "{closure" in key:
+        return None
+    if len(b.blocks) > 80 or b.natural_loops():
+        return None
+    if any(b.locals[i]["ty"].startswith("&mut") for i in range(1, b.argc + 1)):
+        return None
+    tm = Terms(b)
+    tm.inline_depth = depth + 1
+    rt = tm.return_term()
+    alts = list(rt[1]) if rt[0] == "phi" else [rt]
+    kept = []
+    for a in alts:
+        a0 = a
+        if is_err_value(a0) or result_variant(a0) in ("Err", "None") or a0[0] == "noreturn":
+            continue
+        if result_variant(a0) in ("Ok", "Some"):
+            a0 = agg_payload(a0)
+            if a0 is None:
+                continue
+        kept.append(a0)
+    val = mk_phi(kept) if len(kept) > 1 else (kept[0] if kept else None)
+    _INLINE_CACHE[ck] = val
+    return val
+
+
+def _helper_shape_ok(facts, key):
+    b = facts.bodies.get(key)
+    if b is None:
+        return False
+    r = b.raw
+    if r.get("kind") not in ("fn", "assocfn") or r.get("impl_trait") or "{closure" in key:
+        return False
+    return len(b.blocks) <= 80 and not b.natural_loops() and not any(b.locals[i]["ty"].startswith("&mut") for i in range(1, b.argc + 1))
+
+
+def substitute_args(t, args):
+    def f(x):
+        if x[0] == "arg" and isinstance(x[1], int) and 1 <= x[1] <= len(args):
+            return args[x[1] - 1]
+        return None
+    return rewrite(t, f)
+
+
 class Terms:
     """Demand-driven value-flow (origin terms) for one body.
 
@@ -629,6 +748,7 @@ class Terms:
         self.edge_ok = edge_ok
         self.keep_transparent = keep_transparent
         self.track_mut = True
+        self.inline_depth = 0
         self.memo = {}
         self.in_progress = set()
 
@@ -690,6 +810,8 @@ class Terms:
             return self.place(op["place"], bb, idx)
         if k == "const":
             return self.const(op)
+        if k == "vterm":
+            return op["t"]
         return ("unknown", k)
 
     def const(self, op):
@@ -810,6 +932,8 @@ class Terms:
         return val
 
     def call_term(self, t, bb):
+        if "vterm" in t:
+            return t["vterm"]
         f = t["func"]
         n = len(self.body.blocks[bb]["stmts"])
         args = tuple(self.operand(a, bb, n) for a in t["args"])
@@ -832,6 +956,11 @@ class Terms:
                 s = stmts[pos]
                 if s["k"] == "assign" and s["place"]["p"] and s["place"]["p"][0]["k"] == "deref" and s["rv"]["k"] == "agg" and s["rv"].get("agg") == "array":
                     return ("call", "vec!", (self.rvalue(s["rv"], bb, pos),), bb)
+        rk = f.get("resolved") or f.get("def")
+        if rk in self.body.facts.bodies and rk not in known_functions() and known_functions():
+            val = inline_value(self.body.facts, rk, self.inline_depth)
+            if val is not None:
+                return substitute_args(val, args)
         if key == "<indirect>" or key == "<fnptr>" or key is None:
             fo = f.get("op")
             ft = self.operand(fo, bb, n) if fo else ("unknown", "fn")
@@ -1678,6 +1807,23 @@ def try_propagation(body, cs, tm=None):
                       reaches a return whose value is Err-shaped and derives from this call
       'returned'    – the call result is itself (part of) the function's return value
       'other'       – anything else (discarded, unwrapped, mapped to a default, ...)"""
+    if isinstance(cs, VirtualCallSite):
+        # the call sits in a new helper: its Err must leave the helper (propagated or returned as the helper's value) and the
+        # helper's result must be propagated by the caller
+        inner_cs = cs.inner
+        ib = inner_cs.body
+        pi = try_propagation(ib, inner_cs)
+        if pi["kind"] not in ("propagated", "returned"):
+            ef = None
+            try:
+                ef = error_flow(ib.facts, ib, inner_cs)
+            except Exception:
+                ef = None
+            if not (ef and ef.get("ok")):
+                return {"kind": "other", "detail": "inside helper %s: %s" % (short_fn_name(ib.path), pi["detail"])}
+        po = try_propagation(body, cs.via, tm)
+        po["detail"] = "via helper %s: %s" % (short_fn_name(ib.path), po["detail"])
+        return po
     tm = tm or Terms(body)
     ct = tm.call_term(cs.term, cs.bb)
     key = ct
@@ -1814,12 +1960,62 @@ def truthy(t, want):
     return t == ("const", "bool", want)
 
 
+def _forall_adaptor_form(body, inner_pred, tm):
+    """`coll.iter().all(|x| test(x))` — the same universal quantification written with the std adaptor"""
+    F = body.facts
+    for c in body.calls():
+        if not (c.callee and itm(c.callee, "all")) or len(c.args) != 2:
+            continue
+        cl = tm.operand(c.args[1], c.bb)
+        if cl[0] != "closure" or cl[1] not in F.bodies:
+            continue
+        cb = F.bodies[cl[1]]
+        tests = [x for x in cb.calls() if inner_pred(x)]
+        if len(tests) != 1:
+            continue
+        problems = []
+        ctm = Terms(cb)
+        verdict = deep_strip(ctm.call_term(tests[0].term, tests[0].bb))
+        crt = deep_strip(ctm.return_term())
+        if nosite(crt) != nosite(verdict):
+            problems.append("the closure handed to all() does not return the verdict of the per-element test unchanged: %s" % short(nosite(crt))[:120])
+        recv = deep_strip(tm.operand(c.args[0], c.bb))
+        trunc = [x[1] for x in calls_in(recv) if _TRUNCATING.search(x[1])]
+        if trunc:
+            problems.append("the iterated collection is truncated/filtered: %s" % trunc)
+        elem = ("call", "<element of>", (nosite(recv),))
+        caps = cl[2]
+
+        def sub(y):
+            if y == ("arg", 2):
+                return elem
+            if y[0] == "field" and y[1] == ("arg", 1) and str(y[2]).isdigit() and int(y[2]) < len(caps):
+                return caps[int(y[2])]
+            return None
+        arg_terms = [rewrite(ctm.operand(a, tests[0].bb), sub) for a in tests[0].args]
+        if not contains(arg_terms[0], lambda q: q == elem) and not any(contains(a, lambda q: q == elem) for a in arg_terms):
+            problems.append("the per-element test is not applied to the element")
+        allt = tm.call_term(c.term, c.bb)
+        rt = tm.return_term()
+        if not contains(rt, lambda q: q == allt):
+            problems.append("the result of all() is not what the function returns")
+        if contains(rt, lambda q: q[0] == "un" and q[1] == "Not" and contains(q[2], lambda z: z == allt)):
+            problems.append("the result of all() is negated")
+        inner = VirtualCallSite(c, tests[0], arg_terms, rewrite(ctm.call_term(tests[0].term, tests[0].bb), sub))
+        return {"ok": not problems, "problems": problems, "inner": inner, "next": c, "collection": recv}
+    return None
+
+
 def forall_loop(body, inner_pred, tm=None):
     """Analyse a function of the shape above.  `inner_pred(callsite)` selects the per-element test.
     Returns dict with keys: ok(bool), problems(list of str), inner(CallSite), next(CallSite), collection(term)"""
     tm = tm or Terms(body)
     problems = []
     inners = [c for c in body.calls() if inner_pred(c)]
+    if len(inners) == 0:
+        alt = _forall_adaptor_form(body, inner_pred, tm)
+        if alt is not None:
+            return alt
     if len(inners) != 1:
         return {"ok": False, "problems": ["expected exactly one per-element test, found %d" % len(inners)]}
     inner = inners[0]
@@ -1945,6 +2141,77 @@ def rewrite(t, fn):
     return tuple(out)
 
 
+_OPTION_SOURCES = re.compile(r"(HashMap::<.*>::get$|BTreeMap::<.*>::get$|^std::slice::<impl \[T\]>::(get|first|last)$|Option::<T>::(copied|cloned|map|as_ref)$|Iterator>?::(next|max|min|find|last)$|::checked_\w+$)")
+
+
+def canon_default(t):
+    """canonical form of "an optional value with a default": `x.unwrap_or(d)`, `x.unwrap_or_else(|| d)`, `x.map_or(d, id)`,
+    and `match x { Some(v) => v, None => d }` (which the term domain shows as phi{d | x}) all become ('default', x, d).
+    Applied at every level."""
+    def is_opt_source(x):
+        x = unmut(x)
+        while x[0] == "call" and re.search(r"Option::<T>::(copied|cloned|as_ref)$|::to_owned$|::clone$", x[1]) and x[2]:
+            x = unmut(x[2][0])
+        return x[0] == "call" and _OPTION_SOURCES.search(re.sub(r"\{.*\}$", "", x[1])) is not None
+
+    def peel(x):
+        x = unmut(x)
+        while x[0] == "call" and re.search(r"Option::<T>::(copied|cloned|as_ref)$", x[1]) and x[2]:
+            x = unmut(x[2][0])
+        return x
+
+    def f(x):
+        if x[0] == "call" and re.search(r"Option::<T>::unwrap_or$", x[1]) and len(x[2]) == 2:
+            return ("default", canon_default(peel(x[2][0])), canon_default(x[2][1]))
+        if x[0] == "phi" and len(x[1]) == 2:
+            a, b_ = list(x[1])
+            for opt, d in ((a, b_), (b_, a)):
+                if is_opt_source(opt) and d[0] in ("item", "const") :
+                    return ("default", canon_default(peel(opt)), d)
+        return None
+    return rewrite(t, f)
+
+
+def norm_adaptors(F, t, depth=0):
+    """Option/Result adaptors applied to a value are read through, in the payload convention of this library (the Ok/Some
+    payload of x is reported as x): `x.map(|v| f(v))` / `x.and_then(..)` become f(x); transpose/copied/cloned/as_ref/ok are
+    transparent.  Lets `match x { Some(v) => Some(f(v)), None => None }` and `x.map(f)` compare equal after canonicalisation."""
+    def f(x):
+        if x[0] == "call" and re.search(r"(Option::<T>|Result::<T, E>)::(map|and_then)$", x[1]) and len(x[2]) == 2 and depth < 4:
+            recv, cl = x[2]
+            recv = norm_adaptors(F, recv, depth + 1)
+            if cl[0] == "closure" and cl[1] in F.bodies:
+                cb = F.bodies[cl[1]]
+                rt = nosite(deep_strip(Terms(cb).return_term()))
+                alts = list(rt[1]) if rt[0] == "phi" else [rt]
+                kept = []
+                for a in alts:
+                    if is_err_value(a) or result_variant(a) in ("Err", "None"):
+                        continue
+                    if result_variant(a) in ("Ok", "Some"):
+                        a = agg_payload(a)
+                    kept.append(a)
+                if not kept:
+                    return None
+                val = mk_phi(kept) if len(kept) > 1 else kept[0]
+                caps = cl[2]
+
+                def sub(y):
+                    if y == ("arg", 2):
+                        return recv
+                    if y[0] == "field" and y[1] == ("arg", 1) and str(y[2]).isdigit() and int(y[2]) < len(caps):
+                        return caps[int(y[2])]
+                    return None
+                return norm_adaptors(F, rewrite(val, sub), depth + 1)
+            if cl[0] == "fn":
+                return ("call", cl[1], (recv,))
+            return None
+        if x[0] == "call" and len(x[2]) == 1 and re.search(r"Option::<T>::(transpose|copied|cloned|as_ref|as_deref)$|Result::<T, E>::(ok|transpose)$|Option::<.*>::transpose$", x[1]):
+            return norm_adaptors(F, x[2][0], depth + 1)
+        return None
+    return rewrite(t, f)
+
+
 def short_fn_name(path):
     """stable short name of a function path: Type@Trait::method / module::function"""
     m = re.match(r"^<(.+?) as (.+?)>::(.*)$", path)
@@ -2041,7 +2308,11 @@ class _EnvTerms(Terms):
 
 
 class IterRow:
-    __slots__ = ("kind", "conds", "env", "stores", "ret", "blocks", "facts", "calls")
+    __slots__ = ("kind", "conds", "env", "stores", "ret", "blocks", "facts", "calls", "sites")
+
+    def count(self, callee_re):
+        """number of call *sites* on this path whose resolved callee matches (transparent calls included once each)"""
+        return sum(1 for _, k, _ in self.sites if k and re.search(callee_re, k))
 
     def new(self, l):
         """value of local l at the end of the path"""
@@ -2067,7 +2338,8 @@ def iteration_table(body, head, max_paths=5000):
 
     def emit(kind, conds, env, stores, seen, calls, ret=None):
         r = IterRow()
-        r.kind, r.conds, r.env, r.stores, r.blocks, r.ret, r.calls = kind, conds, env, stores, seen, ret, calls
+        r.kind, r.conds, r.env, r.stores, r.blocks, r.ret, r.calls = kind, conds, env, stores, seen, ret, [(bb_, v_) for bb_, _k, v_ in calls]
+        r.sites = calls
         r.facts = path_facts(Path(conds, seen, kind))
         rows.append(r)
         if len(rows) > max_paths:
@@ -2101,7 +2373,7 @@ def iteration_table(body, head, max_paths=5000):
             continue
         if k == "call":
             v = et.call_term(t, bb)
-            calls = calls + [(bb, v)]
+            calls = calls + [(bb, callee_key(t["func"]), v)]
             d = t.get("dest")
             if d is not None and not d["p"]:
                 env[d["l"]] = v
